@@ -44,18 +44,18 @@ BOUND = {
              "solve}, FISTA and ISTA 6x4 x {L1, vector box} x both forms, LM {expfit, quadpert} x 2 starts x {sparse+csr, dense}, "
              "L_BFGS_B grad/no grad x {none, bounds}, minimize+maximize 5 methods, LS 3 methods x jac/None x 2 starts; "
              "start scale 2^{10,20,30}: CGLS 3 shapes x shift{0,.5} x {ones,e1,far}, PCGLS same x P{I, lower bidiagonal} x {explicit inverse, "
-             "solve} x {ones,far}, ISTA shapes 6x4 and 5x5 x 7 regularisers x {ones,far}, FISTA (momentum) 6x4 x 7 regularisers x ones at 2^10 "
-             "only, LM {expfit, rosenbrock, quadpert} x 2 starts x {sparse+csr, dense}; right-hand-side structure {0, orthogonal to "
+             "solve} x {ones,far}, ISTA shapes 6x4 and 5x5 x 4 regularisers (L1 1.0, nonneg, default box, vector box) x {ones,far}, FISTA (momentum) "
+             "6x4 x the same 4 regularisers x ones at 2^10 only, LM {expfit, rosenbrock, quadpert} x 2 starts x {sparse+csr, dense}; right-hand-side structure {0, orthogonal to "
              "range(A) (m>n), 2^-40 b}: CGLS 3 shapes x shift{0,.5} x {zero,ones,far}, PCGLS same x P{I, lower bidiagonal} x {explicit "
-             "inverse, solve}, FISTA and ISTA 6x4 x 7 regularisers x {zero,ones,far} and 3x5 x {zero,ones}, LM quadpert x {0, orthogonal, "
+             "inverse, solve}, FISTA and ISTA 6x4 x 4 regularisers x {zero,ones,far} and 3x5 x {zero,ones}, LM quadpert x {0, orthogonal, "
              "tiny} and expfit x {0, tiny} x 2 starts x {sparse+csr, dense}; all dense storage, both operator forms",
     "thorough": "as quick with 4 shapes (adds 8x6), every start for every solver, 6 boxes, 4 L1 strengths, finer lattices "
                 "(d=2: 25^2, d=3: 13^3), 3 step sizes; start representation adds int32 and integer list, sparse storage, all 4 "
                 "preconditioners, FISTA on all shapes x 5 regularisers x far start, LM Rosenbrock from integer starts, "
                 "all 10 minimize methods with and without gradient; start scale and right-hand-side structure facets: 4 shapes, dense "
                 "and sparse storage, all 4 preconditioners, all three non-zero starts for PCGLS, ISTA all shapes with m>=n x all "
-                "regularisers x 3 step sizes at 2^{10,20,30} and the under-determined 3x5 at 2^10, FISTA (momentum) 3 shapes at 2^10 "
-                "and 2^20, structure cells for FISTA/ISTA on all 4 shapes x 3 starts",
+                "regularisers x 3 step sizes at 2^{10,20,30} and the under-determined 3x5 at 2^10 (dense, largest step), FISTA (momentum) "
+                "3 shapes with m>=n at 2^10 and 2^20 (dense, largest step), structure cells for FISTA/ISTA on all 4 shapes x 3 starts",
 }
 ASSUMPTIONS = [
     "numpy dense linear algebra (solve, lstsq, svd) is the trusted base of all reference optimality systems",
@@ -236,6 +236,8 @@ def _wide_cells(q, shapes, regs, steps, k):
     out = []
     storages = ("dense",) if q else ("dense", "sparse")
     precs = ("I", "lowertri") if q else ("I", "diag", "tridiag", "lowertri")
+    if q:       # one regulariser of each family, the box both in its default and in its vector form
+        regs = [("l1", 1.0), ("nonneg", None), ("box", "default"), ("box", "vector")]
     # ---- (i) scale of the start vector: 2^e x (ones / e1 / far); the zero start is scale invariant (base product)
     for e in SCALES:
         for (m, n) in shapes:
@@ -258,10 +260,11 @@ def _wide_cells(q, shapes, regs, steps, k):
                         continue
                 elif q or adaptive or e > 10:
                     continue
-                for storage in (("dense",) if (q or adaptive) else storages):
+                slim = q or adaptive or m < n          # the expensive runs: dense storage and the largest step only
+                for storage in (("dense",) if slim else storages):
                     for start in (("ones",) if (q and adaptive) else ("ones", "far")):
                         for (rk, rp) in regs:
-                            for st in ((0.99,) if (q or adaptive) else steps):
+                            for st in ((0.99,) if slim else steps):
                                 out.append({"kind": "fista", "m": m, "n": n, "storage": storage, "start": start, "adaptive": adaptive,
                                             "reg": rk, "regpar": rp, "step": st, "scale": e, "facet": "x0-scale", "cat": k})
         # (smalldecay: every scaled start has an underflowing, rank-deficient Jacobian - outside the regular domain)
